@@ -89,7 +89,12 @@ def count_used_to_exit(x, ix, loop):
                 return True, "the byte count is part of the loop condition"
             break
         if a.get("k") == "if" and contains(a["cond"], cmp_):
-            exits = [y for y in walk(a["then"]) if y.get("k") in ("break", "return")] + ([y for y in walk(a["else"]) if y.get("k") in ("break", "return")] if "else" in a else [])
+            outer_inl = {b_.get("inl_id") for b_ in ix.ancestors(loop) if b_.get("k") == "blockexpr" and "inl_id" in b_}
+
+            def leaves_loop(y):
+                # `return` of an inlined helper leaves the helper's block; it leaves the loop when that block encloses the loop
+                return y.get("k") in ("break", "return") or (y.get("k") == "ireturn" and y.get("inl") in outer_inl)
+            exits = [y for y in walk(a["then"]) if leaves_loop(y)] + ([y for y in walk(a["else"]) if leaves_loop(y)] if "else" in a else [])
             tries = [y for y in walk(a) if y.get("k") == "try"]
             if exits:
                 return True, "leaves the loop when the byte count is 0"
@@ -465,6 +470,13 @@ ALLOW = {
 }
 
 
+# the allow-listed sites by what they unwrap (function- and ordinal-independent)
+ALLOW_SIG = {
+    "self.symbols.last_mut": "representation invariant symbols.len() > 0",
+    "param.get_symbol_name(param)": "API precondition: the argument is a symbol",
+}
+
+
 def aborts(ctx):
     g, fns = callgraph.build(ctx.facts, {"patronus"})
     roots = [p for p in fns if p.startswith("<patronus::smt::solver::SmtLibSolverCtx as patronus::smt::solver::SolverContext>::")] + [CTXT + "read_response", CTXT + "read_sat_response", CTXT + "write_cmd"]
@@ -479,6 +491,10 @@ def aborts(ctx):
                 ok = c14.guarded_decrement(fns[p], s_["node"]) or guarded_by_gt(fns[p], s_["node"])
             else:
                 ok = s_["key"] in ALLOW
+                if not ok and s_["kind"] == "unwrap":
+                    # the same reviewed site may have moved (into a helper, to another ordinal): match by what is unwrapped
+                    sig = panics.signature(s_["node"], param_ids(fns[p]) + [i_ for n_ in walk(fns[p]["body"]) if n_.get("k") == "let" and n_.get("inl_param") for _, i_ in pat_bindings(n_["pat"])])
+                    ok = sig in ALLOW_SIG
             armed += 1
             ctx.inst("R15.6", s_["key"], ok, s_["node"].get("sp"), "%s: `%s` can abort the process during a solver conversation and is not on the reviewed allow-list" % (p, show(s_["node"])[:80]),
                      sample={"site": s_["key"], "reason": ALLOW.get(s_["key"], "guarded")})
